@@ -141,7 +141,9 @@ func (fv *familyVersion) GetLiveReferenceFiles(store string) map[FamilyID][]tabl
 // cannot remove current version from active versions.
 func (fv *familyVersion) removeVersion(v Version) {
 	fv.mutex.Lock()
-	if v != fv.current {
+	// the caller saw the reference count at zero before it took the lock, a snapshot may have pinned
+	// the version since (GetSnapshot pins under the read lock): then it has to stay registered
+	if v != fv.current && v.NumOfRef() == 0 {
 		delete(fv.activeVersions, v.ID())
 	}
 	fv.mutex.Unlock()
